@@ -108,7 +108,8 @@ def shrink(c):
 
 
 # ---- command-line glue: a multi-alignment Phylip input must be treated as its alignments one by one (`detmulti`) ----
-MULTI_CMDS = [['revcomp'], ['toupper'], ['tolower'], ['unalign'], ['revcomp', 'nope', 's1'], ['revcomp', 's1', 'ref'], ['revcomp', 'zz', 'ref', 's1']]
+MULTI_CMDS = [['revcomp'], ['toupper'], ['tolower'], ['unalign'], ['revcomp', 'nope', 's1'], ['revcomp', 's1', 'ref'], ['revcomp', 'zz', 'ref', 's1'],
+              ['revcomp', '-o', 'rc.phy'], ['toupper', '-o', 'up.phy']]
 
 
 def _gen_large(rng, tier):
